@@ -47,6 +47,14 @@ var c18Frags = []hostileFrag{
 	{"at-import", "@import url(x)", false},
 	{"at-import-string", "@import 'x'", false},
 	{"at-charset", "@charset \"x\"", false},
+	// hostile content wrapped in a functional notation a handler might learn to accept
+	{"wrapped-expression", "calc(expression(alert(1)))", false},
+	{"wrapped-expression", "min(expression(alert(1)), 1px)", false},
+	{"wrapped-expression", "var(--x, expression(alert(1)))", false},
+	{"wrapped-url-javascript", "calc(url(javascript:alert(1)))", false},
+	{"wrapped-url-javascript", "image-set(url(javascript:alert(1)) 1x)", false},
+	{"wrapped-url-javascript", "attr(url(javascript:alert(1)))", false},
+	{"wrapped-angle", "calc(1px<2px)", false},
 }
 
 func handlerName(h func(string) bool) string {
